@@ -297,6 +297,14 @@ pub fn plan_merge(m: &Model, spec: &TreeSpec, left: usize) -> Option<usize> {
     Some(new_ids.len())
 }
 
+/// The fixed edge predicate of Call::SliceSome.
+pub fn edge_accepted(seed: u16, from: usize, to: usize, l: &Lab) -> bool {
+    use std::hash::{Hash, Hasher};
+    let mut h = std::collections::hash_map::DefaultHasher::new();
+    (seed, from, to, l).hash(&mut h);
+    h.finish() & 1 == 0
+}
+
 pub fn observe_slice(s: &dyn G) -> SliceObs {
     let keys = s.keys();
     let kids = keys
@@ -352,7 +360,8 @@ impl Runner {
             Call::Put(v, _) | Call::Data(v) | Call::Kid(v, _) | Call::Kids(v) => m.present(*v),
             Call::NextId | Call::NextIdAdd => m.allocator_room() >= 1,
             Call::Clone | Call::SaveLoad | Call::Snapshot | Call::RefreshSnapshot => true,
-            Call::Slice(v) => m.present(*v) && m.reachable(*v).is_some_and(|r| r.len() <= 14),
+            Call::Slice(v) | Call::SliceSome(v, _) => m.present(*v) && m.reachable(*v).is_some_and(|r| r.len() <= 14),
+            Call::CloneInto { cap, ids } => *cap >= 1 && ids.iter().all(|i| i < cap),
             Call::Merge { h, left } => {
                 h.nodes.iter().all(|n| n.id < h.cap)
                     && *left < m.cap
@@ -461,7 +470,7 @@ impl Runner {
                     Ret::Unit
                 }
                 Call::Put(v, d) => {
-                    g.put(*v, &hex_of(d));
+                    g.put(*v, &crate::graph::hex_arg(d));
                     Ret::Unit
                 }
                 Call::Data(v) => Ret::Data(g.data(*v).map(|h| h.to_vec())),
@@ -502,6 +511,20 @@ impl Runner {
                         .map(|s| observe_slice(&*s))
                         .map_err(|e| format!("{e:#}")),
                 ),
+                Call::SliceSome(v, seed) => Ret::Slice(
+                    g.slice_some(*v, &|a, b, l| edge_accepted(*seed, a, b, &Lab::from_label(&l)))
+                        .map(|s| observe_slice(&*s))
+                        .map_err(|e| format!("{e:#}")),
+                ),
+                Call::CloneInto { cap, ids } => {
+                    let mut other = new_graph(n, *cap);
+                    for i in ids {
+                        other.add(*i);
+                    }
+                    let _ = other.clone_from_dyn(&**g);
+                    replacement = Some(other);
+                    Ret::Unit
+                }
                 Call::Merge { h, left } => Ret::Merge(
                     g.merge(&**hgraph.as_ref().unwrap(), *left, h.root())
                         .map_err(|e| format!("{e:#}")),
@@ -577,7 +600,7 @@ impl Runner {
             }
             Call::Kid(v, l) => Exp::Kid(self.m.kid(*v, l)),
             Call::Kids(v) => Exp::Kids(self.m.get(*v).edges.clone()),
-            Call::Clone | Call::Snapshot | Call::RefreshSnapshot => Exp::None,
+            Call::Clone | Call::Snapshot | Call::RefreshSnapshot | Call::CloneInto { .. } | Call::SliceSome(..) => Exp::None,
             Call::SaveLoad => {
                 self.m.reset_allocator();
                 self.hist.returned.clear();
